@@ -32,7 +32,7 @@ type exifSpec struct {
 }
 
 func checkC03(p *Prog, r *Report) {
-	r.Explain("Value-exactness over all records and layouts (rational arithmetic, date parsing, offset-sorted reading) is a run-time computation and is not decided. Decided necessary conditions: DISPATCH — from the SSA of parseTag every store into a field of exif2.Exif (incl. the nested Time and GPS structs) is collected with the (directory, tag id) conditions that dominate it and the parser whose result is stored; against spec/exif_tags.json (49 rows written from CIPA DC-008 / TIFF 6 / DNG): every row's field is stored under exactly that directory and id through a parser of the row's value class, fallback tags only under a test that the field is still unset, and no store is reached under a (directory, id) the table does not list (an unrelated tag cannot perturb the result); ACCESSOR — the composite accessors (ModifyDate, DateTimeOriginal, CreateDate, GPS Latitude/Longitude/Altitude/Date) read exactly the fields that belong together; BLOCKEND — the length guard of the Exif reader refuses only reads that go past the declared Exif length (a value ending exactly at the end of the block is read); MODELTBL — make/model names survive the name tables (String(FromString(s)) == s) except for the recorded deliberate normalisations; SIGN — where a sign, hemisphere or time unit is attached: ParseOffsetTime hands getLocation exactly negated seconds under '-' and '+' (per-branch affine evaluation; 3600*HH + 60*MM when the digit form is recognised), ParseGPSRef compares the reference byte with the specification's negative value (S, W, 1), the GPS accessors negate exactly under the reference flag, and the time accessors add sub-seconds as milliseconds, GPS time as seconds and shift by minus the zone offset; ROUTE — in readIfdHeader every entry decoded without error passes parseTag or addTagBuffer on every path to the next entry (no tag is filtered out before the dispatch), and addTagBuffer declines a tag only under conditions on offsets, the queue's fill level or the log level — never on the tag's id, directory or type — and resetPosition, which makes room before a sub-directory is read, compacts the queue in every legal state 0 < pos <= len <= cap(tag); VALFETCH — readTagValue, through which every out-of-line value passes, skips exactly ValueOffset − po and reads exactly Size() bytes of the current tag; ZONE — getLocation never returns nil (the accessors read a nil zone as an absent offset tag): each return is a time.FixedZone result, a value from the cache all of whose inserts are such results, or an element of a table that a counted loop provably fills from the first to the last index; FRESH — the Exif value returned is not recycled (no pooled type contains it), so absent fields are zero.")
+	r.Explain("Value-exactness over all records and layouts (rational arithmetic, date parsing, offset-sorted reading) is a run-time computation and is not decided. Decided necessary conditions: DISPATCH — from the SSA of parseTag every store into a field of exif2.Exif (incl. the nested Time and GPS structs) is collected with the (directory, tag id) conditions that dominate it and the parser whose result is stored; against spec/exif_tags.json (49 rows written from CIPA DC-008 / TIFF 6 / DNG): every row's field is stored under exactly that directory and id through a parser of the row's value class, fallback tags only under a test that the field is still unset, and no store is reached under a (directory, id) the table does not list (an unrelated tag cannot perturb the result); ACCESSOR — the composite accessors (ModifyDate, DateTimeOriginal, CreateDate, GPS Latitude/Longitude/Altitude/Date) read exactly the fields that belong together; BLOCKEND — the length guard of the Exif reader refuses only reads that go past the declared Exif length (a value ending exactly at the end of the block is read); MODELTBL — make/model names survive the name tables (String(FromString(s)) == s) except for the recorded deliberate normalisations; MAKEEXACT — ParseCameraMake/ParseCameraModel return string(ParseBuffer(t)) or, under the ok result of an exact *FromString map lookup, the String() of the value found — no prefix match, normalisation or default in between; SIGN — where a sign, hemisphere or time unit is attached: ParseOffsetTime hands getLocation exactly negated seconds under '-' and '+' (per-branch affine evaluation; 3600*HH + 60*MM when the digit form is recognised), ParseGPSRef compares the reference byte with the specification's negative value (S, W, 1), the GPS accessors negate exactly under the reference flag, and the time accessors add sub-seconds as milliseconds, GPS time as seconds and shift by minus the zone offset; ROUTE — in readIfdHeader every entry decoded without error passes parseTag or addTagBuffer on every path to the next entry (no tag is filtered out before the dispatch), and addTagBuffer declines a tag only under conditions on offsets, the queue's fill level or the log level — never on the tag's id, directory or type — and resetPosition, which makes room before a sub-directory is read, compacts the queue in every legal state 0 < pos <= len <= cap(tag); VALFETCH — readTagValue, through which every out-of-line value passes, skips exactly ValueOffset − po and reads exactly Size() bytes of the current tag; ZONE — getLocation never returns nil (the accessors read a nil zone as an absent offset tag): each return is a time.FixedZone result, a value from the cache all of whose inserts are such results, or an element of a table that a counted loop provably fills from the first to the last index; FRESH — the Exif value returned is not recycled (no pooled type contains it), so absent fields are zero.")
 	r.Trusted("spec/exif_tags.json (written from the standards)")
 	b, err := os.ReadFile(filepath.Join(verifRoot(), "spec", "exif_tags.json"))
 	if err != nil {
@@ -62,6 +62,8 @@ func checkC03(p *Prog, r *Report) {
 	r.Floor("MODELTBL", 20)
 	r.Floor("FRESH", 1)
 	ruleZone(p, r)
+	ruleMakeExact(p, r)
+	r.Floor("MAKEEXACT", 2)
 	r.Floor("ZONE", 1)
 }
 
